@@ -169,72 +169,3 @@ theorem skipTplAt_sim : ∀ (d : Nat) (t : UInt8) (s : σ) (u : τ), R s u →
 end Sim
 
 end Verif.Pools
-
-/-! ## ReaderSkipDecoder: the retained buffer and the dirty memory never show -/
-namespace Verif.Pools
-open Verif
-
-theorem src_read_len (s : Src) (room : Nat) : (s.read room).1.length ≤ room := by
-  unfold Src.read
-  split
-  · simp
-  · simp only [List.length_take]; omega
-
-theorem readFullLoop_le : ∀ (fuel : Nat) (s : Src) (k : Nat) (acc : Bytes), acc.length ≤ k →
-    (readFullLoop fuel s k acc).1.length ≤ k := by
-  intro fuel
-  induction fuel with
-  | zero => intro s k acc h; simpa [readFullLoop] using h
-  | succ f ih =>
-    intro s k acc h
-    simp only [readFullLoop]
-    split
-    · exact h
-    · have hl := src_read_len s (k - acc.length)
-      split
-      · simp only [List.length_append]; omega
-      · exact ih _ _ _ (by simp only [List.length_append]; omega)
-
-/-- the decoder with its buffer (`s`) against the decoder without (`u`): same source, and the first
-    `n` bytes of the buffer are exactly the bytes read in this call; what lies behind them — the
-    previous tenant's bytes, or dirty pool memory — is unconstrained -/
-def RsdRel (s : RsdSt) (u : ReaderDec) : Prop :=
-  s.src = u.src ∧ s.n = u.got.length ∧ s.b.take s.n = u.got ∧ s.n ≤ s.b.length
-
-theorem rsdGrow_ok (d : Dirty) (s : RsdSt) (k : Nat) (hn : s.n ≤ s.b.length) :
-    ∃ s1, rsdGrow d s k = .ok s1 ∧ s1.src = s.src ∧ s1.n = s.n ∧ s1.b.take s.n = s.b.take s.n ∧
-      s.n + k ≤ s1.b.length := by
-  unfold rsdGrow
-  by_cases h : s.n ≤ s.b.length ∧ s.b.length - s.n ≥ k
-  · rw [if_pos h]; exact ⟨s, rfl, rfl, rfl, rfl, by omega⟩
-  · rw [if_neg h, if_neg (by omega)]
-    refine ⟨_, rfl, rfl, rfl, ?_, ?_⟩
-    · simp only []
-      rw [List.take_append_of_le_length (by simp only [List.length_take]; omega), List.take_take]
-      simp
-    · simp only [List.length_append, List.length_take, List.length_map, List.length_range]; omega
-
-theorem rsd_hskip (d : Dirty) (s : RsdSt) (u : ReaderDec) (k : Nat) (h : RsdRel s u) :
-    OutRel (fun x y => x.1 = y.1 ∧ RsdRel x.2 y.2) ((rsdBackend d).skipN s k) (readerBackend.skipN u k) := by
-  obtain ⟨hsrc, hn, hb, hle⟩ := h
-  obtain ⟨s1, hg, h1src, h1n, h1b, h1len⟩ := rsdGrow_ok d s k hle
-  simp only [rsdBackend, readerBackend, hg]
-  rw [if_neg (by omega), h1src, hsrc]
-  generalize hres : readFullLoop (u.src.script.length + 2) u.src k [] = res
-  have hlen : res.1.length ≤ k := by
-    rw [← hres]; exact readFullLoop_le _ _ _ _ (by simp)
-  by_cases hk : res.1.length ≥ k
-  · simp only [hk, if_true, OutRel]
-    refine ⟨trivial, rfl, ?_, ?_, ?_⟩
-    · simp only [List.length_append]; omega
-    · simp only []
-      have e1 : (s1.b.take s1.n).length = s1.n := by simp only [List.length_take]; omega
-      rw [List.append_assoc, List.take_append_of_le_length (by omega)] 
-      sorry
-    · simp only [List.length_append, List.length_take, List.length_drop]; omega
-  · simp only [hk, if_false]
-    cases res.2.1 with
-    | none => sorry
-    | some e => simp [OutRel]
-
-end Verif.Pools
